@@ -77,16 +77,19 @@ static bool step(Keys &K, const std::string &skey, const std::vector<Reg> &abs, 
     return true;
 }
 
-static void judge_pools(Keys &K, Stats &st, const std::string &base) {
+// iid = the pooled outputs come from independent inputs (strata experiment, netlists); the BFS reuses one representative ciphertext per abstract state in many
+// transitions (up to ~16 gates see the same source masks), so its pools are correlated: bound checks use an effective sample size n/16 and strata are not compared
+static void judge_pools(Keys &K, Stats &st, const std::string &base, bool iid) {
     for (auto cls : {std::string("bin"), std::string("mux")}) { double bound = K.bound * (cls == "mux" ? 1.35 : 1.0);
         std::vector<std::pair<std::string, std::array<double, 4>>> strata;
         for (auto &kv : st.pools) if (!kv.first.compare(0, 4, cls + "/")) { auto p = kv.second; if (p[0] < 1000 && kv.first != cls + "/all") continue; if (kv.first == cls + "/degenerate-mask") { double n = p[0], mean = p[1] / n, sd = std::sqrt(std::max(0.0, p[2] / n - mean * mean)); if (n >= 1000 && sd > bound * (1 + 8 / std::sqrt(2 * n))) violation(base + "/pool=" + kv.first, fmt("lambda=%d: stdev %.5f of degenerate-mask outputs exceeds the bound %.5f", K.lam, sd, bound)); continue; }
             double n = p[0], mean = p[1] / n, sd = std::sqrt(std::max(0.0, p[2] / n - mean * mean)); std::string k = base + "/pool=" + kv.first;
             std::string tag = base.substr(0, base.find('/')); stat_max(fmt("%s/stdev_over_bound/lambda%d/%s", tag.c_str(), K.lam, kv.first.c_str()), sd / bound); stat_max(fmt("%s/absmean_over_quarter_bound/lambda%d/%s", tag.c_str(), K.lam, kv.first.c_str()), std::fabs(mean) / (0.25 * bound)); stat_max(fmt("%s/outputs/lambda%d/%s", tag.c_str(), K.lam, kv.first.c_str()), n);
             // the acceptance region is 8 estimator standard deviations wide (a pool sitting exactly at the bound must not raise an alarm): n >= 1000 outputs per judged pool
-            if (n >= 1000) { double slack = 8 / std::sqrt(2 * n); if (sd > bound * (1 + slack)) violation(k, fmt("lambda=%d: stdev of the output phase error %.5f over %g outputs exceeds the bound %.5f (by more than 8 estimator sigma)", K.lam, sd, n, bound));
-                if (std::fabs(mean) > 0.25 * bound + 8 * sd / std::sqrt(n)) violation(k, fmt("lambda=%d: mean output phase error %.6f exceeds a quarter of the bound %.5f (%g outputs, 8 estimator sigma allowed)", K.lam, mean, bound, n)); }
-            if (n >= 2000) strata.push_back({kv.first, p}); nontrivial(1); }
+            double neff = iid ? n : n / 16;
+            if (neff >= 1000 || (iid && n >= 1000)) { double slack = 8 / std::sqrt(2 * neff); if (sd > bound * (1 + slack)) violation(k, fmt("lambda=%d: stdev of the output phase error %.5f over %g outputs exceeds the bound %.5f (by more than 8 estimator sigma)", K.lam, sd, n, bound));
+                if (std::fabs(mean) > 0.25 * bound + 8 * sd / std::sqrt(neff)) violation(k, fmt("lambda=%d: mean output phase error %.6f exceeds a quarter of the bound %.5f (%g outputs, 8 estimator sigma allowed)", K.lam, mean, bound, n)); }
+            if (iid && n >= 1000) strata.push_back({kv.first, p}); nontrivial(1); }
         // input independence: strata of the same family agree within 8 estimator sigma
         for (size_t a = 0; a < strata.size(); a++) for (size_t b = a + 1; b < strata.size(); b++) { auto fam = [](const std::string &s) { size_t p = s.find('/'), e = s.find('=', p); return s.substr(p, e == std::string::npos ? std::string::npos : e - p); };
             if (fam(strata[a].first) != fam(strata[b].first) || strata[a].first.find('=') == std::string::npos) continue;
@@ -117,7 +120,7 @@ static void bfs(Keys &K, int w, int nthreads) {
     int maxd = 0; for (int d : depth) if (d > maxd) maxd = d;
     stat_sum("states", (double)abs.size()); stat_sum("transitions", (double)transitions); stat_sum("traces_validated", (double)transitions); stat_max(fmt("fixpoint_depth/lambda%d/w%d", K.lam, w), maxd); stat_max(fmt("abstract_states/lambda%d/w%d", K.lam, w), (double)abs.size());
     eval(transitions); for (auto &kv : index) outcome(fnv(kv.first.data(), kv.first.size()));
-    if (!failed) judge_pools(K, st, base);
+    if (!failed) judge_pools(K, st, base, false);
     sample(fmt("lambda=%d w=%d: %zu abstract states, %llu transitions executed on the real library, fix-point at depth %d; deepest representative: %s", K.lam, w, abs.size(), (unsigned long long)transitions, maxd, path.back().c_str()));
 }
 
@@ -148,14 +151,40 @@ static void corpus(Keys &K) {
       for (int i = 0; i < (quick() ? 30 : 120); i++) { net.push_back({XOR, 4 + (i % 3), i % 4, (i + 1) % 4, 0}); net.push_back({ANDNY, i % 4, 4 + (i % 3), (i + 2) % 4, 0}); net.push_back({XOR, (i + 1) % 4, 4 + (i % 3), 4 + ((i + 1) % 3), 0}); net.push_back({NOT, (i + 3) % 4, (i + 3) % 4, 0, 0}); } run_netlist(K, "fanout-parity", 7, in, net, st); }
     { std::vector<int> in = {1, 0, 1, 0, 1, 1}; std::vector<NetGate> net; int len = quick() ? 1100 : 3000; // multiplexer-heavy register shuffle (conditional moves, in place)
       for (int i = 0; i < len; i++) net.push_back({MUX, (i * 5 + 1) % 6, i % 6, (i + 2) % 6, (i * 3 + 4) % 6}); run_netlist(K, fmt("mux-shuffle-%d", len), 6, in, net, st); }
-    judge_pools(K, st, fmt("netlist/lambda=%d", K.lam));
+    judge_pools(K, st, fmt("netlist/lambda=%d", K.lam), true);
+}
+
+// ---- input-independence on INDEPENDENT samples: for every input class, n gate evaluations on inputs that share nothing (fresh masks, independently
+// bootstrapped inputs, independent injections, independent deep chains); strata of one family must agree within 8 estimator sigma and respect the bounds
+static void strata(Keys &K, int per_class, int nthreads) {
+    std::string base = fmt("strata/lambda=%d", K.lam); current(base); Stats st; const LweParams *lp = K.ps->in_out_params; const auto &G = table();
+    static const char *CLS[] = {"fresh", "gate-outputs", "adversarial", "deep-chain", "mixed"};
+    std::atomic<int> next(0); int total = 5 * per_class; std::vector<std::thread> pool; std::atomic<bool> failed(false);
+    for (int t = 0; t < nthreads; t++) pool.emplace_back([&] { LweSample *in[3], *tmp[3], *out = new_LweSample(lp); for (int q = 0; q < 3; q++) { in[q] = new_LweSample(lp); tmp[q] = new_LweSample(lp); }
+        for (;;) { int i = next.fetch_add(1); if (i >= total || failed) break; int cls = i % 5, rep = i / 5; uint64_t x = (uint64_t)i * 0x9E3779B97F4A7C15ULL + K.lam; int bits[3];
+            for (int q = 0; q < 3; q++) { bits[q] = (int)(splitmix(x) & 1); int c = cls == 4 ? (int)(splitmix(x) % 4) : cls;
+                if (c == 0) fresh(K, in[q], bits[q], x);
+                else if (c == 1) { int b0 = (int)(splitmix(x) & 1); fresh(K, tmp[0], b0, x); fresh(K, tmp[1], bits[q] ^ b0, x); bootsXOR(in[q], tmp[0], tmp[1], &K.sk->cloud); }
+                else if (c == 2) { fresh(K, in[q], bits[q], x); Torus32 ph = lwePhase(in[q], K.sk->lwe_key); in[q]->b += ((bits[q] ? MU8 : -MU8) + ((splitmix(x) & 1) ? 1 : -1) * ((1 << 27) - (1 << 12))) - ph; }
+                else { fresh(K, in[q], bits[q], x); for (int d = 0; d < 6; d++) { fresh(K, tmp[0], 0, x); bootsXOR(in[q], in[q], tmp[0], &K.sk->cloud); } } }   // depth-6 in-place chain, plaintext preserved
+            bool mux = rep % 4 == 3; const Gate &g = mux ? G[10] : G[rep % 10];
+            apply(g, out, in[0], in[1], in[2], 0, &K.sk->cloud); int want = g.truth(bits[0], bits[1], bits[2]);
+            if (bootsSymDecrypt(out, K.sk) != want) { viol(base + fmt("/sample=%d", i), fmt("%s on %s inputs decrypts wrongly", g.name, CLS[cls])); failed = true; break; }
+            double e = (double)ref::sdiff(lwePhase(out, K.sk->lwe_key), want ? MU8 : -MU8) / 4294967296.0; if (std::fabs(e) >= 3.0 / 64) { viol(base + fmt("/sample=%d", i), fmt("%s on %s inputs: output error %.5f >= 3/64", g.name, CLS[cls], e)); failed = true; break; }
+            std::string gc = mux ? "mux" : "bin"; st.add(gc + "/all", e); st.add(gc + "/inputs=" + CLS[cls], e); } });
+    for (auto &t : pool) t.join();
+    eval(total); stat_sum("transitions", total); stat_sum("traces_validated", total);
+    if (!failed) judge_pools(K, st, base, true);
+    sample(fmt("strata lambda=%d: %d independent gate evaluations per input class {fresh, outputs of independent bootstrapped gates, adversarial +-(1/32-2^-20), depth-6 in-place chains, mixed}", K.lam, per_class));
 }
 
 int main(int argc, char **argv) {
     init(argc, argv);
     int w = (int)opti("w", 2), lam = (int)opti("lambda", 128), nth = (int)opti("threads", 8); std::string part = opt("part", "bfs");
     uint32_t sd[2] = {(uint32_t)lam, (uint32_t)S().seed}; tfhe_random_generator_setSeed(sd, 2);
+    // a process that serves several parameter sets: the other default set's keys are generated first (key generation must not remember an earlier noise level)
+    if (opt("prekeys", "1") == "1") { TFheGateBootstrappingParameterSet *o = new_default_gate_bootstrapping_parameters(lam > 80 ? 80 : 128); SK *osk = new_random_gate_bootstrapping_secret_keyset(o); delete_gate_bootstrapping_secret_keyset(osk); delete_gate_bootstrapping_parameters(o); }
     Keys K; K.lam = lam; K.ps = new_default_gate_bootstrapping_parameters(lam); K.sk = new_random_gate_bootstrapping_secret_keyset(K.ps); K.n = K.ps->in_out_params->n; K.bound = lam > 80 ? 0.0037 : 0.0047;
-    if (part == "bfs") bfs(K, w, nth); else corpus(K);
+    if (part == "bfs") bfs(K, w, nth); else if (part == "strata") strata(K, (int)opti("per_class", quick() ? 1300 : 6000), nth); else corpus(K);
     return finish();
 }
